@@ -40,6 +40,7 @@ var rewritePkgs = []string{
 var extraRewrites = map[string]map[string]string{
 	"internal/queue/sqlite.go":    {"database/sql": "vsql"},
 	"internal/dispatcher/push.go": {"math/rand": "vrand"},
+	"internal/app/run.go":         {"net": "vnet"},
 }
 
 var baseRewrites = map[string]string{
@@ -207,7 +208,16 @@ func main() {
 	fmt.Fprintf(os.Stderr, "verifgen: %d overlay entries -> %s\n", len(keys), filepath.Join(*out, "overlay.json"))
 }
 
+// files whose locks cannot influence any property stay on the real primitives
+var noRewrite = map[string]bool{
+	"internal/app/metrics.go":    true,
+	"internal/queue/postgres.go": true,
+}
+
 func inRewritePkg(rel string) bool {
+	if noRewrite[rel] {
+		return false
+	}
 	d := filepath.Dir(rel)
 	for _, p := range rewritePkgs {
 		if d == p {
